@@ -506,3 +506,17 @@ func c39Extra(r *Run) error {
 	}
 	return nil
 }
+
+// c21Extra: the caches the coherence invariants speak about are filled only by functions under contract for C21,
+// and the fields those invariants read are never written after an entry is built.
+func c21Extra(r *Run) error {
+	tk := modInternal + "language/tokens"
+	rt := modInternal + "router"
+	cp := modInternal + "caches"
+	r.census("C21/token-cache-fill-census", cp+".Add", 0, "TokenCache", "(*"+rt+".Session).Authenticate")
+	r.census("C21/revocation-cache-fill-census", cp+".Add", 0, "BlacklistCache", tk+".IsBlacklisted", tk+".IsIDBlacklisted")
+	r.writersUnderContract("C21/revocation-row-active-writers", r.structField(tk, "BlackListItem", "Active"))
+	r.writersUnderContract("C21/token-id-writers", r.structField(tk, "Token", "TokenID"))
+	r.writersUnderContract("C21/token-expires-writers", r.structField(tk, "Token", "Expires"))
+	return nil
+}
